@@ -40,6 +40,15 @@ P = {
  "C10": ("edge-guard with linear normal forms (cap), control dependence on the good flag, event/result correlation for the back-off timer, must-lockset on the timer, if-then-else shape of the convergence step",
          "Structural necessary conditions: increased weight stored only on C - k*cur >= 0 with C <= 4096; increases control-dependent on the record's good flag which is assigned from the splitter's good set; normalisation uniform; all weight applications on the timer-expired edge evaluated under the mutex and followed by re-arming now+backoff; reset() restores/re-applies all records, re-arms the timer and re-allocates the ratings buffer to len(servers); convergence step is max(configured, current/factor). Level 'other'.",
          "NOT decided: weight >= 1 floor after gcd normalisation, 'loses share within two back-off intervals', 'configured proportions within six adjustments', the outlier statistic: numerical facts over rating histories. Trusted: go/ssa, analyser.", "3/C10"),
+ "C05": ("finite-domain typestate abstract interpretation of the state field (all pre-states per transition site), must-lockset, edge guards with time normal forms, provenance of the deadline",
+         "Lock discipline of state/until/rc/lastCheck; the transition relation extracted for ALL pre-states is a subset of {S->T, R->T, T->R, R->S}; no let-through return can have 'tripped' among its possible states; leaving tripped only on now >= until tested under the exclusive lock; deadlines are now + fallback/recovery duration stored unchanged; ServeHTTP dispatches exactly on the admission result. Level 'other'.",
+         "NOT decided: timing at real clocks (fast-path admission an instant before the trip counts as arrived before). Trusted: go/ssa, analyser, sync.RWMutex.", "3/C05"),
+ "C12": ("rational-function normal form of the admission guard (helpers inlined), event counting per edge, constructor/assignment provenance, must-lockset on the ramp counters, typestate transitions",
+         "The allow edge is exactly (allowed+1)/(allowed+denied+1) < 0.5*(now-start)/duration, strictly, zero-guarded; exactly one counter increment per edge with the matching result; a fresh controller (start=now, duration=recoveryDuration) is created at and only at the tripped->recovering site and stored, with until = now + recoveryDuration; counters only touched under the exclusive lock; recovering->standby on now > until, re-trip only via the condition check. Level 'other'.",
+         "NOT decided: real-clock granularity; the inductive step 'fraction stays under the ramp' is a paper argument over the checked guard. Trusted: go/ssa, analyser.", "3/C12"),
+ "C18": ("ordering-set abstract evaluation of the operator table, registry check of the function map, edge guards and must-pass-through in the check routine, decision table of side effects, typestate (no self-loops)",
+         "All eight operators bound; each comparison operator's constructed predicate is true on exactly the standard subset of {<,=,>} (followed through helper constructors, not(), || closures, type switches); and/or short-circuit folds; the three metric functions bound to the same-named metrics methods with arguments in order and milliseconds; trip iff condition true, evaluated only past a re-test of the check period under the exclusive lock with lastCheck advanced; metrics.Reset() after every trip; record-then-check after every served response; side effects launched only from the state setter on their own state, one goroutine, one Exec, nil-guarded, no self-loop transitions. Level 'other'.",
+         "NOT decided: numerical values of ratios/quantiles; expression parsing (vulcand/predicate, trusted). Trusted: go/ssa, analyser.", "3/C18"),
 }
 
 NA = {}
